@@ -52,7 +52,7 @@ func truncScenario(c *Ctx, sh truncShape) {
 	for i := 0; i < sh.nodes; i++ {
 		w.NewNode()
 	}
-	for i := 0; i < 4; i++ {
+	for i := 0; i < 5; i++ { // wallets[4] is the saver: funded early, spends exactly its checkpoint later
 		w.NewWallet()
 	}
 	a := w.nodes[0]
@@ -79,6 +79,9 @@ func truncScenario(c *Ctx, sh truncShape) {
 		if i < 8 {
 			iss, rec = w.wallets[0], w.wallets[1+i%3]
 			amt = spice.Melange{Currency: 1000}
+		}
+		if i == 9 {
+			iss, rec, amt = w.wallets[0], w.wallets[4], spice.Melange{Currency: 10}
 		}
 		if sh.selfXfer && i%50 == 10 {
 			rec = iss // issuer == receiver
@@ -181,6 +184,11 @@ func truncScenario(c *Ctx, sh truncShape) {
 			}
 		}
 	}
+	// ---- the saver spends exactly what is checkpointed for it (its next checkpoint must become zero)
+	{
+		t := w.NewTrx(w.wallets[4], w.wallets[1].Address(), spice.Melange{Currency: 10}, nil)
+		w.Propose(a, &t)
+	}
 	// ---- later transfers are validated against the same funds
 	for i := 0; i < 24; i++ {
 		iss := w.wallets[i%4]
@@ -229,7 +237,7 @@ func truncScenario(c *Ctx, sh truncShape) {
 		w.checkpointOracle(&pre2, &post2, moved2, info)
 		a2 := w.balancesOf(a)
 		for addr, bv := range b2 {
-			if a2[addr] != bv && addr != pre2.Genesis && bv != "err" {
+			if a2[addr] != bv && addr != pre2.Genesis {
 				c.Violate("C07", "balance-changed-by-second-truncation", fmt.Sprintf("balance of %s was %s before and %s after the second truncation", w.A(addr), bv, a2[addr]), info)
 			}
 		}
@@ -305,13 +313,13 @@ func init() {
 	sections["trunc"] = func(c *Ctx) error {
 		c.Rep.Rule = "ledgers of 1100-1300 vertices built on the real code (chain; two-node braid; with self-transfers; with a side tip not descending from the cut), SEEDed into the model, truncated, then: balances of all wallets before/after, reads of moved vertices/transactions, re-submissions, 24 proposals spending checkpointed funds, optional second truncation; non-trivial = distinct shape"
 		shapes := []truncShape{
-			{name: "chain", nodes: 1, build: 1150},
+			{name: "chain-twice", nodes: 1, build: 1150, second: true},
 			{name: "selfxfer-braid", nodes: 2, build: 1200, selfXfer: true},
 		}
 		if c.Tier == "thorough" {
 			shapes = append(shapes,
 				truncShape{name: "sidetip", nodes: 1, build: 1250, sideTip: true},
-				truncShape{name: "second", nodes: 1, build: 1120, second: true},
+				truncShape{name: "braid-twice", nodes: 2, build: 1120, second: true},
 				truncShape{name: "braid3", nodes: 3, build: 1300},
 			)
 		}
